@@ -123,7 +123,10 @@ class Linter:
         fname: str, root_config: FluffConfig
     ) -> tuple[str, FluffConfig, str]:
         """Load a raw file and the associated config."""
-        file_config = root_config.make_child_from_path(fname)
+        # NOTE: The dialect isn't required yet. It may only be set by an inline
+        # config directive in the file itself, which we haven't read yet. We
+        # check for it after processing those.
+        file_config = root_config.make_child_from_path(fname, require_dialect=False)
         config_encoding: str = file_config.get("encoding", default="autodetect")
         encoding = get_encoding(fname=fname, config_encoding=config_encoding)
         # Check file size before loading.
@@ -158,6 +161,8 @@ class Linter:
             raw_file = target_file.read()
         # Scan the raw file for config commands.
         file_config.process_raw_file_for_config(raw_file, fname)
+        # Now that any inline directives have been applied, a dialect is required.
+        file_config.verify_dialect_specified()
         # Return the raw file and config
         return raw_file, file_config, encoding
 
